@@ -681,6 +681,31 @@ def r8_pickle(rep, ctx):
     rep.check(at_least_one and at_most_one and cap_ok, "C07.R8", "Quantity.__reduce__:one-trailing-caption",
               "exactly one trailing element (the caption or None) is appended to the item list on every path",
               "the state list gets %s trailing caption element on some path" % ("no" if not at_least_one else ("more than one" if not at_most_one else "a non-caption")), fn=red)
+    # None stands for "no caption": it is appended only where the caption was found to be empty (judged where the value
+    # is built), never because of some other condition - the caption takes part in equality for every unit
+    from ..facts import facts as nfacts, none_fact
+    CAP = ("field", "_unknown_unit_caption")
+
+    def caption_empty(fs):
+        for f in fs:
+            k, l, r_, pos = f
+            if k == "truth" and not pos and res.term(l) == CAP:
+                return True
+            nf = none_fact(f)
+            if nf and nf[1] and res.term(nf[0]) == CAP:
+                return True
+            if k == "eq" and pos and r_ is not None and {res.term(l), res.term(r_)} == {CAP, ("const", "")}:
+                return True
+        return False
+
+    for a_ in appends:
+        arg = cfg.ast[a_].value.args[0]
+        for st_, t_ in res.origins(arg):
+            if t_ != ("const", None):
+                continue
+            site = cfg.node_of(st_) if st_ is not None else a_
+            rep.check(caption_empty(nfacts(cfg, site)), "C07.R8", "Quantity.__reduce__:none-means-no-caption:%d" % appends.index(a_), "None is pickled in place of the caption only where the caption is empty",
+                      "Quantity.__reduce__ pickles None instead of the caption on a path where the caption was not found to be empty: a captioned quantity is unpickled as a different (unequal) one", node=cfg.ast[site], fn=red)
     # the items come from the composing map
     items_ok = any(x == ("field", MAP) for x in walk(res.term(ast.Name(id=lst, ctx=ast.Load()), at=rets[0])))
     rep.check(items_ok, "C07.R8", "Quantity.__reduce__:items", "the pickled items are the composing map's items", "the pickled state does not come from the composing map", fn=red)
